@@ -133,7 +133,7 @@ def main():
                                                                 "params": {"kind": "reference", "name": "ExtraStructureOfEvolvedModel"}}]
         (tmp / "small.json").write_text(json.dumps(small))
         (tmp / "evolved.json").write_text(json.dumps(evolved))
-        seeds = [SEED, SEED + 1] + ([SEED + 7, SEED + 13, 12345, 99, 4242, 31337] if THOROUGH else [])
+        seeds = [SEED, SEED + 1, SEED + 2, SEED + 3, SEED + 10] + ([SEED + 7, SEED + 13, 12345, 99, 4242, 31337] if THOROUGH else [])
         jobs = []
         for plugin in ("python", "rust", "dotnet", "testdata"):
             mf = tmp / "small.json" if plugin == "testdata" else None   # full model for the three code plugins
@@ -198,6 +198,42 @@ def main():
                 samples.append({"plugin": plugin, "owned_files": nfiles, "runs": n, "model": "reduced" if plugin == "testdata" else "committed lsp.json"})
                 for r in res:
                     add(*r)
+        # a feature-rich evolved model (every edit kind of tools/evolve.py applied to the committed model: anonymous literals on the
+        # fallback naming paths, and-types, keyword names, messages without typeName, ...) under a sweep of hash seeds: a set or dict-of-set
+        # iteration that the committed model never reaches still has to give the same bytes
+        import random
+        import evolve
+        rich = copy.deepcopy(DOC)
+        for e in evolve.EDITS:
+            try:
+                e(rich, random.Random(SEED))
+            except (StopIteration, IndexError):
+                pass
+        (tmp / "rich.json").write_text(json.dumps(rich))
+        sweep = list(range(20)) if THOROUGH else list(range(8))
+
+        def one_rich(job):
+            plugin, seed = job
+            d = tmp / f"rich-{plugin}-{seed}"
+            rc, log = run(plugin, tmp / "rich.json", d, seed)
+            dg = digest(plugin, d) if rc == 0 else None
+            shutil.rmtree(d, ignore_errors=True)
+            shutil.rmtree(str(d) + "-tests", ignore_errors=True)
+            return plugin, seed, rc, log, dg
+
+        rich_ref = {}
+        with ThreadPoolExecutor(max_workers=12) as ex:
+            for plugin, seed, rc, log, dg in ex.map(one_rich, [(pl, sd) for pl in ("python", "rust", "dotnet") for sd in sweep]):
+                evals += 1
+                if rc != 0:
+                    add(f"{plugin}|evolved-model", "plugin-fails", "exit 0", log[-300:], {"seed": seed, "model": "all tools/evolve.py edits applied to generator/lsp.json"})
+                elif plugin not in rich_ref:
+                    rich_ref[plugin] = (seed, dg)
+                elif dg != rich_ref[plugin][1]:
+                    diff = sorted(set(dg.items()) ^ set(rich_ref[plugin][1].items()))[:3]
+                    add(f"{plugin}|hash-seed|evolved-model", "output-differs-between-hash-seeds", "byte-identical", diff,
+                        {"seeds": [rich_ref[plugin][0], seed], "model": "all tools/evolve.py edits (seed %d) applied to generator/lsp.json" % SEED})
+        samples.append({"plugin": "python, rust, dotnet on the evolved feature-rich model", "hash_seeds": sweep})
         # testdata, full model, in process, across seeds
         full = REPO / "generator/lsp.json"
         outs = []
